@@ -16,8 +16,9 @@ import (
 )
 
 type Event struct {
-	Kind    string `json:"kind"`    // guard | effect | vguard
-	Call    string `json:"call"`    // allowTopic / store.CreateTopic / ...
+	Kind    string `json:"kind"`    // guard | effect | read | vguard | ret
+	Acks0   bool   `json:"acks0"`   // ret: lexically inside `if req.Acks == 0 { ... }`
+	Call    string `json:"call"`    // allowTopic / store.CreateTopic / ...; ret: nilnil | nilerr | value (a two-result return)
 	Action  string `json:"action"`  // ActionProduce ...
 	InLoop  bool   `json:"inLoop"`  // lexically inside a for/range statement
 	InCond  bool   `json:"inCond"`  // the guard call is (part of) an if condition
@@ -57,6 +58,17 @@ type walker struct {
 	callee string
 	depth  int
 	seen   map[string]bool
+	acks0  int // > 0 while inside the body of `if <x>.Acks == 0`
+}
+
+// `<x>.Acks == 0` (the fire-and-forget test of handleProduce)
+func isAcks0Cond(e ast.Expr) bool {
+	b, ok := e.(*ast.BinaryExpr)
+	if !ok || b.Op != token.EQL {
+		return false
+	}
+	lit, ok := b.Y.(*ast.BasicLit)
+	return ok && lit.Value == "0" && strings.HasSuffix(sel(b.X), ".Acks")
 }
 
 func (w *walker) add(e Event, pos token.Pos) {
@@ -83,8 +95,30 @@ func (w *walker) walk(n ast.Node, inLoop bool, inCond bool) {
 		w.walk(x.Init, inLoop, false)
 		w.vguard(x)
 		w.walk(x.Cond, inLoop, true)
-		w.walk(x.Body, inLoop, false)
+		if isAcks0Cond(x.Cond) {
+			w.acks0++
+			w.walk(x.Body, inLoop, false)
+			w.acks0--
+		} else {
+			w.walk(x.Body, inLoop, false)
+		}
 		w.walk(x.Else, inLoop, false)
+		return
+	case *ast.ReturnStmt:
+		// what the arm hands back to the connection loop: (payload, nil) = a reply, (nil, nil) = NO reply, (nil, err) = error reply
+		if len(x.Results) == 2 {
+			class := "value"
+			if sel(x.Results[0]) == "nil" {
+				class = "nilerr"
+				if sel(x.Results[1]) == "nil" {
+					class = "nilnil"
+				}
+			}
+			w.add(Event{Kind: "ret", Call: class, Acks0: w.acks0 > 0, InLoop: inLoop}, x.Pos())
+		}
+		for _, r := range x.Results {
+			w.walk(r, inLoop, inCond)
+		}
 		return
 	case *ast.CallExpr:
 		name := sel(x.Fun)
@@ -117,7 +151,7 @@ func (w *walker) walk(n ast.Node, inLoop bool, inCond bool) {
 			fn := strings.TrimPrefix(name, "h.")
 			if fd := funcs[fn]; fd != nil && !w.seen[fn] {
 				w.seen[fn] = true
-				sub := &walker{arm: w.arm, callee: fn, depth: w.depth + 1, seen: w.seen}
+				sub := &walker{arm: w.arm, callee: fn, depth: w.depth + 1, seen: w.seen, acks0: w.acks0}
 				sub.walk(fd.Body, inLoop, false)
 			}
 		}
@@ -136,7 +170,7 @@ func (w *walker) walk(n ast.Node, inLoop bool, inCond bool) {
 			return true
 		}
 		switch c.(type) {
-		case *ast.ForStmt, *ast.RangeStmt, *ast.IfStmt, *ast.CallExpr, *ast.FuncLit:
+		case *ast.ForStmt, *ast.RangeStmt, *ast.IfStmt, *ast.CallExpr, *ast.FuncLit, *ast.ReturnStmt:
 			w.walk(c, inLoop, inCond)
 			return false
 		}
